@@ -1,0 +1,20 @@
+//go:build !verif
+
+package sizes
+
+import (
+	"github.com/github/git-sizer/counts"
+	"github.com/github/git-sizer/git"
+)
+
+// Verification hooks are compiled out unless built with `-tags verif`.
+
+type verifGraphState struct{}
+
+func verifEvent(*Graph, string, git.OID)                                       {}
+func verifMatch(*Graph, git.OID, git.OID)                                      {}
+func verifTreeFinal(*Graph, git.OID, TreeSize, counts.Count32, counts.Count32) {}
+func verifTagFinal(*Graph, git.OID, TagSize)                                   {}
+func verifRoots(*Graph, []Root)                                                {}
+func verifRoot(*Graph, Root)                                                   {}
+func verifDone(*Graph)                                                         {}
